@@ -6,6 +6,7 @@
 package xsimrt
 
 import (
+	"fmt"
 	"sort"
 	"sync"
 )
@@ -54,6 +55,36 @@ func MapKeys[M ~map[K]V, K ordered, V any](m M) []K {
 		return out
 	}
 	return ks
+}
+
+// MapKeysAny is MapKeys for key types without a natural order (structs, arrays,
+// pointers, interfaces): the canonical order is the order of the keys' %#v
+// renderings (ties and pointer-valued keys make it merely deterministic per
+// process, which is still one of the permutations the Go spec allows).
+func MapKeysAny[M ~map[K]V, K comparable, V any](m M) []K {
+	type kr struct {
+		k K
+		r string
+	}
+	ks := make([]kr, 0, len(m))
+	for k := range m {
+		ks = append(ks, kr{k, fmt.Sprintf("%#v", k)})
+	}
+	sort.SliceStable(ks, func(i, j int) bool { return ks[i].r < ks[j].r })
+	out := make([]K, len(ks))
+	for i := range ks {
+		out[i] = ks[i].k
+	}
+	if p := Perm; p != nil && len(out) >= 2 {
+		MapRanges++
+		perm := p(len(out))
+		res := make([]K, len(out))
+		for i, j := range perm {
+			res[i] = out[j]
+		}
+		return res
+	}
+	return out
 }
 
 // ForceSwitch parks the calling task and lets another one run. Set by the
